@@ -515,6 +515,13 @@ func (t *c08Tap) newPhase(p int) {
 	t.lastEvent = time.Now()
 }
 
+// touch restarts the idle clock (after the harness injected work).
+func (t *c08Tap) touch() {
+	t.mu.Lock()
+	t.lastEvent = time.Now()
+	t.mu.Unlock()
+}
+
 func (t *c08Tap) snapshot() (count int, since time.Duration) {
 	t.mu.Lock()
 	defer t.mu.Unlock()
